@@ -1,20 +1,46 @@
 import WebrtcVerif.Base.Wire
 /-! Driver handler for C40's search half: every concurrent program is expected to complete (`ok`);
-    the judge names the failure observed by the race-detector build. -/
+    the judge names the failure observed by the race-detector build.
+
+    Op lines
+    * `conc <seed> <goroutines> <calls>` — seeded random program next to a serialized signaling exchange;
+    * `par <setup> <seed> <ng> <reps> <group>…` — a fixture brought to `setup`, then each group of entry
+      points (names joined by `+`) run by `ng` goroutines behind one barrier, `reps` calls each.
+
+    Outputs: `ok`, `race <k1> <k2> …` (one key per race-detector report: the two racing functions,
+    `f~g`; the harness prints keys of recorded findings last so that a recorded race cannot hide a new
+    one), `hang <where>`, `timeout`, `panic …`, `crash <runtime message>` (the process
+    that ran the line died: fatal runtime error or unrecovered panic on a library goroutine).  The property demands "every call returns, and the race
+    detector reports no data race": anything but `ok` violates it. -/
 namespace WebrtcVerif.Drv.C40
 
+def setups : List String := ["fresh", "offer", "conn", "conn2", "closing"]
+
+def isNat (s : String) : Bool := !s.isEmpty && s.all Char.isDigit
+
+/-- a group is a non-empty `+`-separated list of non-empty names -/
+def groupOk (g : String) : Bool := (g.splitOn "+").all (fun n => !n.isEmpty)
+
+def wellFormed : List String → Bool
+  | ["conc", a, b, c] => isNat a && isNat b && isNat c
+  | "par" :: s :: seed :: ng :: reps :: g :: gs =>
+      setups.contains s && isNat seed && isNat ng && isNat reps && (g :: gs).all groupOk
+  | _ => false
+
 def run (args : List String) : String :=
-  match args with
-  | ["conc", _, _, _] => "ok"
-  | _ => "bad-op"
+  if wellFormed args then "ok" else "bad-op"
 
 def judge (args out : List String) : String :=
-  match args, out with
-  | ["conc", _, _, _], ["ok"] => "ok"
-  | ["conc", _, _, _], ["race"] => "violated data-race"
-  | ["conc", _, _, _], ["hang"] => "violated deadlock-or-hang"
-  | ["conc", _, _, _], ["timeout"] => "violated deadlock-or-hang"
-  | ["conc", _, _, _], "panic" :: _ => "violated panic"
-  | _, _ => "bad-judge"
+  if !wellFormed args then "bad-judge" else
+  match out with
+  | ["ok"] => "ok"
+  | ["race"] => "violated data-race"
+  | "race" :: k :: _ => "violated data-race:" ++ k
+  | "hang" :: _ => "violated deadlock-or-hang"
+  | ["timeout"] => "violated deadlock-or-hang"
+  | "panic" :: _ => "violated panic"
+  | ["crash"] => "violated crash"
+  | "crash" :: k :: _ => "violated crash:" ++ k
+  | _ => "bad-judge"
 
 end WebrtcVerif.Drv.C40
